@@ -64,6 +64,8 @@ type c24AS struct {
 type c24Remote struct {
 	chains [][]*x509.Certificate
 	asked  int
+	// appended: chains a dishonest remote adds after the matching ones in replies for that AS
+	appended map[addr.IA][][]*x509.Certificate
 }
 
 func (r *c24Remote) Chains(ctx context.Context, q trust.ChainQuery, _ net.Addr) ([][]*x509.Certificate, error) {
@@ -77,6 +79,7 @@ func (r *c24Remote) Chains(ctx context.Context, q trust.ChainQuery, _ net.Addr) 
 			out = append(out, c)
 		}
 	}
+	out = append(out, r.appended[q.IA]...)
 	if err := trustgrpc.CheckChainsMatchQuery(q, out); err != nil {
 		return nil, err
 	}
@@ -95,6 +98,7 @@ type c24Entry struct {
 	as       int // index of the AS named in the entry
 	signerAS int // index of the AS whose key and key id sign it
 	claimIA  int // index of the AS named in the verification key id
+	skidAS   int // index of the AS whose subject key id is named (-1: the signer's)
 	exp      uint8
 	reason   string // why the entry must not verify ("" = must verify)
 }
@@ -123,7 +127,11 @@ func c24Build(ctx context.Context, ases []c24AS, entries []c24Entry, ts time.Tim
 				HopField: seg.HopField{ExpTime: e.exp, ConsIngress: 99, ConsEgress: ent.HopEntry.HopField.ConsEgress, MAC: [6]byte{9, 9, 9, 9, 9, byte(i)}}}}
 		}
 		s := ases[e.signerAS]
-		signer := trust.Signer{PrivateKey: s.key, Algorithm: signed.ECDSAWithSHA256, IA: ases[e.claimIA].ia, SubjectKeyID: s.chain[0].SubjectKeyId,
+		skid := s.chain[0].SubjectKeyId
+		if e.skidAS >= 0 {
+			skid = ases[e.skidAS].chain[0].SubjectKeyId
+		}
+		signer := trust.Signer{PrivateKey: s.key, Algorithm: signed.ECDSAWithSHA256, IA: ases[e.claimIA].ia, SubjectKeyID: skid,
 			Expiration: time.Now().Add(time.Hour), TRCID: cppki.TRCID{ISD: 1, Base: 1, Serial: 1}}
 		if err := ps.AddASEntry(ctx, ent, signer); err != nil {
 			return nil, err
@@ -158,7 +166,7 @@ func TestC24(t *testing.T) {
 		"Oracle: verifies iff every entry honestly signed and certificate covers the hop lifetime; every mutation except truncation rejected; every prefix verifies. Non-trivial: a valid segment that was mutated, or an invalid entry placed after >= 1 valid entries.")
 	defer rec.Flush(t)
 	rec.Assume("ECDSA, X.509 and protobuf libraries are trusted", "the remote chain source is filtered by the production CheckChainsMatchQuery as in the gRPC fetcher")
-	rec.Require("valid", "invalid_cert_start", "invalid_cert_end", "invalid_foreign_identity", "invalid_foreign_key_under_named_identity", "invalid_wrong_key", "cache_on", "cache_warm", "chain_from_remote",
+	rec.Require("valid", "invalid_cert_start", "invalid_cert_end", "invalid_foreign_identity", "invalid_foreign_key_under_named_identity", "invalid_wrong_key", "invalid_forger_chain_appended_by_remote", "cache_on", "cache_warm", "chain_from_remote",
 		"mut_flip_body", "mut_flip_signature", "mut_flip_info", "mut_malleate_earlier_signature", "mut_swap", "mut_remove", "mut_duplicate", "mut_insert_foreign", "mut_truncate", "rejected_at_parse", "rejected_at_verify", "len_10")
 	c24Once.Do(func() {
 		now := time.Now()
@@ -192,7 +200,7 @@ func TestC24(t *testing.T) {
 		}
 		for i := 0; i <= n; i++ {
 			a := c24AS{ia: addr.MustIAFrom(1, addr.AS(0xff0000000200+uint64(i))), key: pki.Key(elliptic.P256(), 400+i)}
-			e := c24Entry{as: i, signerAS: i, claimIA: i}
+			e := c24Entry{as: i, signerAS: i, claimIA: i, skidAS: -1}
 			// certificate validity: must contain the wall clock (chains are verified against the TRC "now")
 			nb := ts.Add(-time.Duration(rapid.IntRange(1, 86400).Draw(rt, "certBefore")) * time.Second)
 			maxExp := rapid.IntRange(0, 255).Draw(rt, "exp")
@@ -201,7 +209,7 @@ func TestC24(t *testing.T) {
 			// X.509 times have whole seconds, hop lifetimes are multiples of 337.5 s: round up
 			na := end.Add(time.Duration(rapid.IntRange(0, 86400).Draw(rt, "certAfter"))*time.Second + time.Second - 1).Truncate(time.Second)
 			if i == bad {
-				switch rapid.SampledFrom([]string{"cert_start", "cert_end", "foreign_identity", "foreign_key_under_named_identity", "wrong_key"}).Draw(rt, "defect") {
+				switch rapid.SampledFrom([]string{"cert_start", "cert_end", "foreign_identity", "foreign_key_under_named_identity", "wrong_key", "forger_chain_appended_by_remote"}).Draw(rt, "defect") {
 				case "cert_start":
 					late := ts.Add(time.Duration(rapid.IntRange(1, 600).Draw(rt, "late")) * time.Second)
 					if !late.Before(now.Add(-30 * time.Second)) { // the certificate must be valid now
@@ -223,6 +231,10 @@ func TestC24(t *testing.T) {
 					e.signerAS, e.reason = rapid.SampledFrom(append([]int{n}, seqTo(i)...)).Draw(rt, "impersonator"), "foreign_key_under_named_identity"
 				case "wrong_key":
 					e.reason = "wrong_key"
+				case "forger_chain_appended_by_remote":
+					// the spare AS signs with its own key under the named AS's identity and key id; the
+					// named AS's chain is only available remotely and the remote appends the forger's chain
+					e.signerAS, e.skidAS, e.reason = n, i, "forger_chain_appended_by_remote"
 				}
 			}
 			if !na.After(now.Add(60 * time.Second)) {
@@ -240,7 +252,7 @@ func TestC24(t *testing.T) {
 				// named identity and key id, but the signature is made with a different key
 				a.key = pki.Key(elliptic.P256(), 600+i)
 			}
-			if rapid.IntRange(0, 3).Draw(rt, "chainOnlyRemote") == 0 {
+			if onlyRemote := rapid.IntRange(0, 3).Draw(rt, "chainOnlyRemote") == 0; onlyRemote || e.reason == "forger_chain_appended_by_remote" {
 				remote.chains = append(remote.chains, chain)
 				labels["chain_from_remote"] = true
 			} else if _, err := db.InsertChain(ctx, chain); err != nil {
@@ -249,6 +261,11 @@ func TestC24(t *testing.T) {
 			ases = append(ases, a)
 			if i < n {
 				entries = append(entries, e)
+			}
+		}
+		for i, e := range entries {
+			if e.reason == "forger_chain_appended_by_remote" {
+				remote.appended = map[addr.IA][][]*x509.Certificate{ases[i].ia: {ases[n].chain}}
 			}
 		}
 		wantErrAt := -1
@@ -272,9 +289,9 @@ func TestC24(t *testing.T) {
 				var warm []c24Entry
 				okWarm := true
 				for _, e := range entries {
-					w := c24Entry{as: e.as, signerAS: e.as, claimIA: e.as, exp: 0}
+					w := c24Entry{as: e.as, signerAS: e.as, claimIA: e.as, skidAS: -1, exp: 0}
 					c := ases[e.as].chain[0]
-					if e.reason == "wrong_key" || ts.Before(c.NotBefore) || ts.Add(path.ExpTimeToDuration(0)).After(c.NotAfter) {
+					if e.reason == "wrong_key" || e.reason == "forger_chain_appended_by_remote" || ts.Before(c.NotBefore) || ts.Add(path.ExpTimeToDuration(0)).After(c.NotAfter) {
 						okWarm = false
 					}
 					warm = append(warm, w)
